@@ -45,7 +45,7 @@ func (p *Prop) Meta() simkit.Meta {
 			"the race detector's shadow cells can evict an access under very heavy sharing of one word (a miss, never a false report)",
 			"a loop with an empty body cannot be pre-empted (no statement to yield before): covered by the wall-clock watchdog (exit 2)",
 		},
-		FaultKinds:    []string{"writer_error_or_short_write", "callback_crash", "task_stall", "rare_source_output", "adversarial_map_order", "knob_randomisation"},
+		FaultKinds:    []string{"writer_error_or_short_write", "callback_crash", "task_stall", "rare_source_output", "adversarial_map_order", "knob_randomisation", "sync_operation_decisions (SyncBias)", "gomaxprocs_knob"},
 		NotApplicable: []string{"message loss/duplication/reordering", "partitions", "crash-restart with durable state", "torn/lost disk writes", "disk full", "clock skew/jumps", "allocation or syscall failure"},
 		RunsQuick:     24000, RunsThorough: 600000,
 		RaceRunsQuick: 1200, RaceRunsThorou: 30000,
